@@ -50,7 +50,8 @@ class FaultLayer:
     """Counts primitive file operations under `root`; raises Crash instead of performing operation
     number `kill_at` (and every later one)."""
 
-    def __init__(self, root, names, kill_at=None):
+    def __init__(self, root, names, kill_at=None, torn=None):
+        self.torn = torn            # with kill_at: the write at that index is torn after `torn` bytes
         self.root = os.path.abspath(root)
         self.names = names          # si dir name -> si number
         self.kill_at = kill_at
@@ -117,6 +118,11 @@ class FaultFile:
         data = bytes(data)
         if not data:
             return 0
+        lay = self.layer
+        if lay.torn and not lay.dead and lay.kill_at is not None and len(lay.trace) == lay.kill_at:
+            os.pwrite(self.fd, data[:lay.torn], self.pos)     # torn write: a prefix reaches the file, then the kill
+            lay.dead = True
+            raise Crash("torn write")
         self.layer.prim("pwrite:%s:%d:%s" % (self.layer.name(self.path), self.pos, hx(data)))
         os.pwrite(self.fd, data, self.pos)
         self.pos += len(data)
@@ -247,7 +253,7 @@ def test_line(runner, t):
     return None
 
 
-def one_run(ctx, ro, rs, hist, t, kill_at):
+def one_run(ctx, ro, rs, hist, t, kill_at, torn=None):
     """History (concrete ops) then the operation under test with a kill at primitive index
     `kill_at` (None = no kill).  Returns dict with trace, line token, snapshots, restart results."""
     runner = U.Runner(ctx, "C29", readonly=ro, reserved=rs, monitor=False)
@@ -261,7 +267,7 @@ def one_run(ctx, ro, rs, hist, t, kill_at):
             before = snapshot(runner.ss, sis)
             ref_inprog = {w: (r["key"], r["size"], bytes(r["data"])) for w, r in runner.ref.inprog.items()}
             tok = test_line(runner, t)
-            layer = FaultLayer(runner.dir, runner.si_names, kill_at)
+            layer = FaultLayer(runner.dir, runner.si_names, kill_at, torn)
             crashed = False
             with fault_injection(layer):
                 try:
@@ -299,7 +305,15 @@ def targets_of(t, hist_res):
     return ("wid", t[1])
 
 
-def monitor(ctx, case, t, full, res, n):
+def torn_lengths(prim):
+    """torn lengths tried for a primitive write (the same rule as the driver): 1 byte and half of the data"""
+    if not prim.startswith("pwrite:"):
+        return []
+    ln = len(prim.split(":")[3]) // 2
+    return [1, ln // 2] if ln // 2 > 1 else ([1] if ln >= 1 else [])
+
+
+def monitor(ctx, case, t, full, res, n, torn_j=None):
     """The C29 statement on the restarted server after a kill at primitive index n."""
     before, after = res["before"], res["after"]
     trace = full["trace"]
@@ -318,9 +332,19 @@ def monitor(ctx, case, t, full, res, n):
                           "c29-other-share-changed", {"n": n})
         if being_written and a[0] != data:
             # an operation that only adds/renews leases on this share changed its data
-            torn = (0 < n < len(trace) and trace[n - 1].startswith("pwrite:F.") and trace[n].startswith("pwrite:F.")
-                    and trace[n].split(":")[2] == "8" and len(trace[n - 1].split(":")[3]) == 144
-                    and isinstance(a[0], bytes) and len(a[0]) == len(data) + 72)
+            if torn_j is None:
+                torn = (0 < n < len(trace) and trace[n - 1].startswith("pwrite:F.") and trace[n].startswith("pwrite:F.")
+                        and trace[n].split(":")[2] == "8" and len(trace[n - 1].split(":")[3]) == 144
+                        and isinstance(a[0], bytes) and len(a[0]) == len(data) + 72)
+            else:
+                # the same mechanism (record appended at EOF, count not yet written), the append itself torn
+                torn = (n + 1 < len(trace) and trace[n].startswith("pwrite:F.") and trace[n + 1].startswith("pwrite:F.")
+                        and trace[n + 1].split(":")[2] == "8" and len(trace[n].split(":")[3]) == 144
+                        and isinstance(a[0], bytes) and len(a[0]) == len(data) + torn_j)
+                # ... or the count write is the torn one and its first bytes left the old count in place
+                torn = torn or (0 < n < len(trace) and trace[n - 1].startswith("pwrite:F.") and trace[n].startswith("pwrite:F.")
+                                and trace[n].split(":")[2] == "8" and len(trace[n - 1].split(":")[3]) == 144
+                                and isinstance(a[0], bytes) and len(a[0]) == len(data) + 72)
             ctx.violation("lease operation changed share data after a crash: share %s length %d -> %s, leases %d -> %d" % (
                 key, len(data), len(a[0]) if isinstance(a[0], bytes) else a[0], len(leases), len(a[1])), case,
                 SIG_TORN if torn else "c29-lease-op-changed-data", {"n": n, "op": trace[n - 1] if n else None})
@@ -512,6 +536,13 @@ def run(ctx):
             dumps[n] = res["dump"].split(";")[0]
             monitor(ctx, case, t, full, res, n)
             ctx.case((repr(case), n) if 0 < n < len(full["trace"]) else None)
+        for n in range(len(full["trace"])):
+            for j in torn_lengths(full["trace"][n]):
+                res = one_run(ctx, ro, rs, hist, t, n, torn=j)
+                dumps.append("T%d.%d=%s" % (n, j, res["dump"].split(";")[0]))
+                monitor(ctx, case, t, full, res, n, torn_j=j)
+                ctx.case((repr(case), n, j))
+                ctx.count("torn-write")
         lines.append((full["head"] + " " + " ".join(full["lines"])).strip() + " ! " + full["tok"])
         impl.append("ops=" + (";".join(full["trace"]) or "-") + "|" + "|".join(dumps))
         recs.append(case)
